@@ -233,6 +233,26 @@ def parse(s, lexer=None, parser=None):
     return parser.parse(lexer.tokenize(s))
 
 
+def diag(s):
+    """Outcome with the position of the error, in the vocabulary of spec/Diag.tla:
+    ["ok"] | ["syntax", p] | ["token", p] | ["unknown", name_cps] | ["argc", name_cps, min, max, n] | ["other", class]
+    p: 0-based index of the offending token, -1 for the end of the input."""
+    from odata_query import exceptions as ex
+    try:
+        parse(s)
+    except ex.ArgumentCountException as e:
+        return ["argc", cps(e.function_name), e.exp_min_args, e.exp_max_args, e.n_args_given]
+    except ex.UnknownFunctionException as e:
+        return ["unknown", cps(e.function_name)]
+    except ex.ParsingException as e:
+        return ["syntax", -1 if (e.eof or e.token is None) else e.token.index]
+    except ex.TokenizingException as e:
+        return ["token", e.token.index]
+    except Exception as e:  # noqa
+        return ["other", type(e).__name__]
+    return ["ok"]
+
+
 def outcome(s, lexer=None, parser=None):
     """Parse s and project the outcome:  ["ok", tree] | ["syntax"] | ["token"] | ["unknown", name] |
     ["argc", name, min, max, n] | ["foreign", ExcClass, msg] | ["nonnode", repr]."""
